@@ -243,3 +243,35 @@ Theorem C03_reference_driver_is_regular_with_enough_fuel :
                            (mkmach (init_cfg s0 last false) [] [] 0%N) [])).
 Proof. exact InstTermination.html_drive_terminates. Qed.
 Print Assumptions C03_reference_driver_is_regular_with_enough_fuel.
+
+(* C03_driver_chunking_independent WITHOUT the regularity hypotheses (TokIR/NoPanic.v + Termination.v): from a fresh
+   tokenizer in a well-kinded state, with a well-kinded sink and fuel above the explicit bound, every feed call ends
+   regularly unless the driver model's limit of 50 script pauses per chunk (SPanic 96) is hit - so the two chunkings
+   reach the same machine and the same answer of end() ... *)
+From HV Require Inst.InstNoPanic.
+Theorem C03_driver_chunking_independent_total :
+  forall simd ent c1 sk, InstNoPanic.html_sink_ok sk = true ->
+  forall fuel inj cs1 cs2 s0 last,
+  InstNoPanic.html_kind_ok s0 = true ->
+  all_nonempty cs1 -> all_nonempty cs2 -> cs1 <> [] -> cs2 <> [] -> concat cs1 = concat cs2 ->
+  (InstTermination.html_fuel (length (concat cs1) + length cs1 * (50 * length inj)) <= fuel)%nat ->
+  (InstTermination.html_fuel (length (concat cs2) + length cs2 * (50 * length inj)) <= fuel)%nat -> (4 <= fuel)%nat ->
+  let d1 := drive_flat html_flavour true html_table simd ent c1 sk fuel inj cs1 (mkmach (init_cfg s0 last false) [] [] 0%N) [] in
+  let d2 := drive_flat html_flavour true html_table simd ent c1 sk fuel inj cs2 (mkmach (init_cfg s0 last false) [] [] 0%N) [] in
+  ~ In (SPanic 96) (snd d1) -> ~ In (SPanic 96) (snd d2) ->
+  fst d1 = fst d2 /\ hd SSuspend (snd d1) = hd SSuspend (snd d2).
+Proof. exact InstNoPanic.html_drive_chunking_independent_total. Qed.
+Print Assumptions C03_driver_chunking_independent_total.
+
+(* ... and with a sink that never answers Script / EncodingIndicator nothing but the fuel bound is left *)
+Theorem C03_driver_chunking_independent_no_pauses :
+  forall simd ent c1 sk, InstNoPanic.html_sink_ok sk = true ->
+  forall fuel inj cs1 cs2 s0 last,
+  InstNoPanic.html_sink_never_pauses sk = true -> InstNoPanic.html_kind_ok s0 = true ->
+  all_nonempty cs1 -> all_nonempty cs2 -> cs1 <> [] -> cs2 <> [] -> concat cs1 = concat cs2 ->
+  (InstTermination.html_fuel (length (concat cs1)) <= fuel)%nat -> (4 <= fuel)%nat ->
+  let d1 := drive_flat html_flavour true html_table simd ent c1 sk fuel inj cs1 (mkmach (init_cfg s0 last false) [] [] 0%N) [] in
+  let d2 := drive_flat html_flavour true html_table simd ent c1 sk fuel inj cs2 (mkmach (init_cfg s0 last false) [] [] 0%N) [] in
+  fst d1 = fst d2 /\ hd SSuspend (snd d1) = hd SSuspend (snd d2).
+Proof. exact InstNoPanic.html_drive_chunking_independent_quiet. Qed.
+Print Assumptions C03_driver_chunking_independent_no_pauses.
